@@ -440,9 +440,21 @@ def real_leaf_run(ctx, depth, parallel, accept=None):
     with simrun.quiet():
         (Pyramid.new_toast(depth) if accept is None else Pyramid.new_toast_filtered(depth, lambda t: tuple(t.pos) in accept)).visit_leaves(
             lambda pos, tile: ref.append(tuple(pos)), parallel=1)
-        before = {c.pid for c in mp.active_children()}
-        p.visit_leaves(cb, parallel=parallel)
-        alive = [c for c in mp.active_children() if c.pid not in before and c.is_alive()]
+
+    def body():
+        with simrun.quiet():
+            p.visit_leaves(cb, parallel=parallel)
+            return [c.pid for c in mp.active_children() if c.is_alive()]
+    from lib import guard
+    kind, val = guard.run_guarded(body, 120)
+    rep0 = {"depth": depth, "parallel": parallel, "accept": sorted(accept) if accept else None}
+    alive = []
+    if kind == "timeout":
+        ctx.violation("C03:visit_leaves:hang-real", "real-process visit_leaves(parallel=%d) did not return within the 120 s backstop" % parallel, rep0)
+    elif kind == "raised":
+        ctx.violation("C03:visit_leaves:raised-real", "real-process visit_leaves(parallel=%d) raised %s" % (parallel, val), rep0)
+    else:
+        alive = val
     seen = []
     geo_bad = False
     for fn in os.listdir(d):
